@@ -262,6 +262,37 @@ def n(x):
     while x:
         return None
     return
+def o(a):
+    if a:
+        b()
+        return
+    else:
+        return None
+def p(a):
+    with a:
+        b()
+        return
+def q(t, k, cache):
+    try:
+        v = t[k]
+        if v is None:
+            return
+    except KeyError:
+        cache[k] = None
+        return None
+    else:
+        cache[k] = v * 2
+def r(t):
+    try:
+        return None
+    finally:
+        return
+def s(a):
+    for i in a:
+        if i:
+            return
+    else:
+        return None
 '''
     check(rep, model, 'C05.RET', qual, 'return None / return / return <other> at the end, in the middle, nested', ret_src, ref_return_none(ast.parse(ret_src)))
     rep.floor('C05.RET', 1)
